@@ -54,6 +54,7 @@ type c14Stmt struct {
 }
 
 type c14Meta struct {
+	Alt   []c14Stmt `json:"alt,omitempty"` // kind equiv: a program that must behave like Stmts (loops unrolled, placeholders and variables written out)
 	Stmts []c14Stmt `json:"stmts"`
 	NA    int       `json:"na"`
 	NB    int       `json:"nb"`
@@ -125,6 +126,38 @@ func genC14Stmt(r *Rng, reading bool) c14Stmt {
 	}
 }
 
+// genEquivPair returns two programs that must leave the same table and print
+// the same final dump: one re-executes a syntax tree with changing variables or
+// placeholder values (loop, prepared statement, user-defined function), the
+// other spells every execution out with literals.
+func genEquivPair(r *Rng) ([]string, []string) {
+	k1, k2, k3 := 1+r.Intn(3), 4+r.Intn(3), 7+r.Intn(3)
+	w := func(i int) string { return []string{"one", "two", "three", "four"}[i%4] }
+	switch r.Intn(7) {
+	case 0:
+		return []string{"PREPARE up FROM 'UPDATE a SET s = ? WHERE id = ?'; EXECUTE up USING '" + w(k1) + "', " + fmt.Sprint(k1) + "; EXECUTE up USING '" + w(k2) + "', " + fmt.Sprint(k2) + "; EXECUTE up USING @x, " + fmt.Sprint(k3) + "; DISPOSE PREPARE up;"},
+			[]string{fmt.Sprintf("UPDATE a SET s = '%s' WHERE id = %d; UPDATE a SET s = '%s' WHERE id = %d; UPDATE a SET s = 'dog' WHERE id = %d;", w(k1), k1, w(k2), k2, k3)}
+	case 1:
+		return []string{"VAR @k := 1; WHILE @k < 4 DO UPDATE a SET v = @k WHERE id = @k; @k := @k + 1; END WHILE; DISPOSE @k;"},
+			[]string{"UPDATE a SET v = 1 WHERE id = 1; UPDATE a SET v = 2 WHERE id = 2; UPDATE a SET v = 3 WHERE id = 3;"}
+	case 2:
+		return []string{"DECLARE setval FUNCTION (@id, @val) AS BEGIN UPDATE a SET s = @val, v = @id WHERE id = @id; RETURN @id; END;", fmt.Sprintf("PRINT setval(%d, 'x'); PRINT setval(%d, 'y'); PRINT setval(%d, @x);", k1, k2, k3)},
+			[]string{fmt.Sprintf("UPDATE a SET s = 'x', v = %d WHERE id = %d; UPDATE a SET s = 'y', v = %d WHERE id = %d; UPDATE a SET s = 'dog', v = %d WHERE id = %d;", k1, k1, k2, k2, k3, k3)}
+	case 3:
+		return []string{"PREPARE ins FROM 'INSERT INTO a VALUES (?, ?, ?, ?)'; EXECUTE ins USING 7001, 1, 11, 'p'; EXECUTE ins USING 7002, 2, @n, @x; EXECUTE ins USING 7003, 1, 11, 'p'; DISPOSE PREPARE ins;"},
+			[]string{"INSERT INTO a VALUES (7001, 1, 11, 'p'); INSERT INTO a VALUES (7002, 2, 5, 'dog'); INSERT INTO a VALUES (7003, 1, 11, 'p');"}
+	case 4:
+		return []string{fmt.Sprintf("VAR @lo := %d; VAR @j := 0; WHILE @j < 2 DO DELETE FROM a WHERE id = @lo + @j; UPDATE a SET v = @lo WHERE id = @lo + @j + 2; @j := @j + 1; END WHILE; DISPOSE @lo; DISPOSE @j;", k1)},
+			[]string{fmt.Sprintf("DELETE FROM a WHERE id = %d; UPDATE a SET v = %d WHERE id = %d; DELETE FROM a WHERE id = %d; UPDATE a SET v = %d WHERE id = %d;", k1, k1, k1+2, k1+1, k1, k1+3)}
+	case 5:
+		return []string{"DECLARE cu CURSOR FOR SELECT id, v FROM a WHERE id < 4 ORDER BY id; OPEN cu; VAR @ci, @cv; WHILE @ci, @cv IN cu DO UPDATE a SET s = STRING(@cv) || '!' WHERE id = @ci; END WHILE; CLOSE cu; DISPOSE CURSOR cu; DISPOSE @ci; DISPOSE @cv;"},
+			[]string{"UPDATE a SET s = STRING(v) || '!' WHERE id < 4;"}
+	default:
+		return []string{"VAR @t := 'q'; REPLACE INTO a (id, g, v, s) USING (id) VALUES (1, 0, @n, @t); @t := 'r'; @n := @n + 1; REPLACE INTO a (id, g, v, s) USING (id) VALUES (2, 0, @n, @t); @n := 5; DISPOSE @t;"},
+			[]string{"REPLACE INTO a (id, g, v, s) USING (id) VALUES (1, 0, 5, 'q'); REPLACE INTO a (id, g, v, s) USING (id) VALUES (2, 0, 6, 'r');"}
+	}
+}
+
 const typedViewDecl = "VAR @b := TRUE; DECLARE tt VIEW (i, f, d, s, b, u) AS SELECT 1, 1.5, DATETIME('2012-02-03 09:18:15'), 'one', TRUE, NULL UNION ALL SELECT 2, -2.25, DATETIME('2013-04-05 10:00:00'), ' Two ', FALSE, NULL UNION ALL SELECT 3, 0.0, DATETIME('2014-06-07 11:00:00'), '3', TRUE, NULL;"
 
 // first argument: one value of every class, held by a variable (the aliasing
@@ -187,7 +220,7 @@ func renderC14(sc *Scenario, m *c14Meta) {
 
 func (c14) Gen(seed uint64, tier string) *Scenario {
 	r := Sub(seed, "c14")
-	m := &c14Meta{Kind: r.PickS("mixed", "mixed", "prefix", "fnprobe", "fnprobe")}
+	m := &c14Meta{Kind: r.PickS("mixed", "mixed", "prefix", "fnprobe", "fnprobe", "equiv")}
 	big := r.Bool(0.12)
 	if big {
 		m.NA, m.NB = r.Range(150, 400), r.Range(0, 20)
@@ -197,6 +230,17 @@ func (c14) Gen(seed uint64, tier string) *Scenario {
 	sc := &Scenario{Prop: "C14"}
 	sc.Files = []FileSpec{{Name: "a.csv", Content: genTableA(m.NA, 4, r)}, {Name: "b.csv", Content: genTableB(m.NB, m.NA, 4, r)}}
 	n := r.Range(3, 7)
+	if m.Kind == "equiv" {
+		a, b := genEquivPair(r)
+		for _, x := range a {
+			m.Stmts = append(m.Stmts, c14Stmt{Src: x, Repeat: 1})
+		}
+		for _, x := range b {
+			m.Alt = append(m.Alt, c14Stmt{Src: x, Repeat: 1})
+		}
+		m.Alt = append(m.Alt, c14Stmt{Src: "SELECT * FROM a; PRINT @x; PRINT @n; PRINT @f; PRINT @d; PRINT @u;", Repeat: 1, Reads: true}, c14Stmt{Src: "COMMIT;", Repeat: 1})
+		n = 0
+	}
 	if m.Kind == "fnprobe" {
 		// every built-in function with arguments of every value class: variables,
 		// literals and typed cells of a temporary table are only read, so they must
@@ -410,6 +454,33 @@ func (c14) Eval(t *testing.T, c *Case, dec func(int) *Decider) *Outcome {
 			o.viol(prop, "read-only-prefix", "prefix-changes-committed-file", "the committed table differs when reading statements precede the change: "+firstDiff(fa, ff))
 		}
 		o.Stats.probe("prefix-scenario")
+	}
+	// (5) re-executing one syntax tree with changing values == spelling the executions out
+	if meta.Kind == "equiv" && len(meta.Alt) > 0 {
+		alt := *sc
+		alt.Procs = append([]ProcSpec{}, sc.Procs...)
+		am := meta
+		am.Stmts = meta.Alt
+		renderC14Into(&alt, &am)
+		alt.Knobs.Pool = "fresh"
+		resB, _ := Execute(t, &alt, dec(len(policies)+2))
+		o.Runs++
+		full := *sc
+		full.Knobs.Pool = "fresh"
+		resA, _ := Execute(t, &full, dec(len(policies)+3))
+		o.Runs++
+		sa, _, _ := shellSections(resA.Procs[0].Stdout)
+		sb, _, _ := shellSections(resB.Procs[0].Stdout)
+		da := sa[fmt.Sprintf("%d.0", len(meta.Stmts)-1)]
+		db := sb[fmt.Sprintf("%d.0", len(meta.Alt)-1)]
+		if da != db {
+			o.viol(prop, "re-execution", "re-executed-tree-differs-from-spelled-out:"+stmtKind(meta.Stmts[0].Src),
+				fmt.Sprintf("a statement executed repeatedly with changing variable / placeholder values leaves a different table than the same executions written out with literals: %s\n  repeated: %s\n  written out: %s", firstDiff(db, da), meta.Stmts[0].Src, meta.Alt[0].Src))
+		} else if fa, fb := resA.Final["a.csv"].Data, resB.Final["a.csv"].Data; fa != fb {
+			o.viol(prop, "re-execution", "re-executed-tree-commits-differently", "committed table differs: "+firstDiff(fb, fa))
+		} else {
+			o.Stats.probe("equiv-scenario-equal")
+		}
 	}
 	o.Sample = map[string]interface{}{"seed": c.Seed, "kind": meta.Kind, "statements": sc.Procs[0].Statements, "repeats": sc.Procs[0].Repeats, "cpu": sc.Procs[0].CPU, "knobs": sc.Knobs}
 	return o
